@@ -24,7 +24,7 @@ ASSUMPTIONS = ["valid hashtags match [A-Za-z_][A-Za-z0-9_-]*; ordinary words con
 TS = "2018-03-07T12:43:00"
 SEPS = [" ", ", ", "\t", " ; ", "\n"]
 DASH_SEPS = ["-", " \u2013 "]  # only between non-hashtag items ('#a-b' is one hashtag)
-TAG_PAIRS = [("#fun", "#p_1-x"), ("#_x1", "#Q9")]  # every character class in first and later position
+TAG_PAIRS = [("#fun", "#p_1-x"), ("#_x1", "#Q9"), ("#fun", "#funny-2")]  # last pair: one hashtag is a prefix of the other  # every character class in first and later position
 TAGS = ["#fun", "#p_1-x"]
 ORDINARY = "john"
 
@@ -36,7 +36,7 @@ def _items(tier):
     w1, w2 = pool[0], pool[1]
     fams = grammar.FAMILIES
     if tier == "quick":
-        exprs = [ss[0] for _, ss in fams][:9] + ["friday 8pm-9pm"]
+        exprs = [ss[0] for _, ss in fams][:6] + ["friday 8pm-9pm"]
     else:
         exprs = [s for _, ss in fams for s in ss]
     return w1, w2, list(dict.fromkeys(exprs))
@@ -47,12 +47,18 @@ def plan(tier, seed):
     def gen():
         for pi, (t1, t2) in enumerate(TAG_PAIRS):
             others = [("w", w1), ("w", w2), ("o", ORDINARY), ("t", t1), ("t", t2)]
+            if pi == 0:
+                others.append(("w", w1))  # the same inert word a second time: every occurrence must be kept
             for e in exprs:
                 for k in range(1, 5):
                     for sub in itertools.combinations(others, k):
                         has_tag = any(kind == "t" for kind, _ in sub)
+                        if sum(1 for kind, x in sub if x == w1) == 2 and (k > 3 or tier == "quick" and has_tag):
+                            continue  # the repeated word: small texts only
                         if pi > 0 and not has_tag:
-                            continue  # tag-free texts are identical for every tag pair
+                            continue
+                        if pi == 2 and (sum(1 for kind, _ in sub if kind == "t") < 2 or (tier == "quick" and k > 3)):
+                            continue  # the prefix pair matters only when both hashtags are present  # tag-free texts are identical for every tag pair
                         items = list(sub) + [("e", e)]
                         for perm in itertools.permutations(items):
                             seps = SEPS if (tier == "thorough" or k >= 3) else SEPS[:2]
